@@ -226,6 +226,13 @@ static void blk_der(void) {
 		{ size_t n = 0; m[n++] = 0x30; m[n++] = (uint8_t)(sig[1] + 1); m[n++] = 0x02; m[n++] = (uint8_t)(rl + 1); m[n++] = 0; memcpy(m + n, sig + 4, sl - 4); n += sl - 4; offer("der:padded-r", d, m, n, e, MSG, 20); }
 		{ size_t n = 0; memcpy(m, sig, so + 1); n = so + 1; m[1]++; m[n++] = (uint8_t)(slen2 + 1); m[n++] = 0; memcpy(m + n, sig + so + 2, slen2); n += slen2; offer("der:padded-s", d, m, n, e, MSG, 20); }
 		if (sig[4] == 0) { size_t n = 0; m[n++] = 0x30; m[n++] = (uint8_t)(sig[1] - 1); m[n++] = 0x02; m[n++] = (uint8_t)(rl - 1); memcpy(m + n, sig + 5, sl - 5); n += sl - 5; offer("der:missing-sign-octet-r", d, m, n, e, MSG, 20); }
+		/* over-long INTEGERs (33..64 content octets): the value does not fit the 32-octet field. With k surplus leading octets taken from the tail of r (a reader that
+		   copies right-aligned without bounding the length writes them over r), zero octets and 0x01 octets; first INTEGER genuine, 1, and r with its tail zeroed */
+		{ const uint8_t *rv = sig + 4 + (sig[4] == 0 && rl == 33 ? 1 : 0); size_t rvl = rl - (size_t)(rv - (sig + 4)); const uint8_t *sv = sig + so + 2 + (sig[so + 2] == 0 && slen2 == 33 ? 1 : 0); size_t svl = slen2 - (size_t)(sv - (sig + so + 2)); uint8_t r32[32] = {0}, s32[32] = {0}; memcpy(r32 + 32 - rvl, rv, rvl); memcpy(s32 + 32 - svl, sv, svl);
+			static const size_t KS[] = { 1, 2, 16, 31, 32 }; for (int ki = 0; ki < 5; ki++) for (int fill = 0; fill < 3; fill++) for (int first = 0; first < 3; first++) { size_t k = KS[ki]; uint8_t big[64]; if (fill == 0) memcpy(big, r32 + 32 - k, k); else memset(big, fill == 1 ? 0x00 : 0x01, k); memcpy(big + k, s32, 32); size_t bl = k + 32; if (fill == 0 && (big[0] & 0x80)) continue; /* would be negative: another class */
+				uint8_t fr[34]; size_t fl; if (first == 0) { memcpy(fr, sig + 4, rl); fl = rl; } else if (first == 1) { fr[0] = 1; fl = 1; } else { uint8_t z[32]; memcpy(z, r32, 32); memset(z + 32 - k, 0, k); size_t o = 0; while (o < 31 && z[o] == 0) o++; fl = 0; if (z[o] & 0x80) fr[fl++] = 0; memcpy(fr + fl, z + o, 32 - o); fl += 32 - o; }
+				size_t n = 0; m[n++] = 0x30; size_t tot = 2 + fl + 2 + bl; if (tot >= 128) { m[n++] = 0x81; } m[n++] = (uint8_t)tot; m[n++] = 0x02; m[n++] = (uint8_t)fl; memcpy(m + n, fr, fl); n += fl; m[n++] = 0x02; m[n++] = (uint8_t)bl; memcpy(m + n, big, bl); n += bl; offer("der:over-long-s", d, m, n, e, MSG, 20);
+				/* and the mirror image: over-long r */ if (first == 0) { n = 0; m[n++] = 0x30; tot = 2 + (k + 32) + 2 + slen2; if (tot >= 128) m[n++] = 0x81; m[n++] = (uint8_t)tot; m[n++] = 0x02; m[n++] = (uint8_t)(k + 32); if (fill == 0) memset(m + n, 0x01, k); else memset(m + n, fill == 1 ? 0x00 : 0x7f, k); n += k; memcpy(m + n, r32, 32); n += 32; memcpy(m + n, sig + so, 2 + slen2); n += 2 + slen2; offer("der:over-long-r", d, m, n, e, MSG, 20); } } }
 		{ size_t n = 0; memcpy(m, sig, sl); n = sl; m[1] += 3; m[n++] = 0x02; m[n++] = 1; m[n++] = 1; offer("der:third-integer", d, m, n, e, MSG, 20); }
 		{ size_t n = 0; m[n++] = 0x30; m[n++] = 0x80; memcpy(m + n, sig + 2, sl - 2); n += sl - 2; m[n++] = 0; m[n++] = 0; offer("der:indefinite-length", d, m, n, e, MSG, 20); }
 		{ memcpy(m, sig, sl); m[0] = 0x31; offer("der:set-tag", d, m, sl, e, MSG, 20); memcpy(m, sig, sl); m[2] = 0x03; offer("der:bitstring-tag-r", d, m, sl, e, MSG, 20); memcpy(m, sig, sl); m[0] = 0x10; offer("der:primitive-seq-tag", d, m, sl, e, MSG, 20); }
